@@ -36,7 +36,7 @@ type c10Spec struct {
 
 var (
 	c10Sources = []string{"none", "master", "other", "decoy"}
-	c10Threads = []string{"run", "stop", "io_error", "sql_error", "permanent", "sticky_error"}
+	c10Threads = []string{"run", "stop", "io_error", "sql_error", "permanent", "sticky_error", "permanent_src"}
 	c10SS      = []string{"none", "slave", "master"}
 )
 
@@ -48,9 +48,9 @@ func c10Gen(seed int64, idx int) c10Spec {
 	for i := 1; i < sp.N; i++ {
 		var nd c10Node
 		if i == 1 {
-			nd = c10Node{RO: g%2 == 0, Offline: (g/2)%2 == 1, Source: c10Sources[(g/4)%4], Threads: c10Threads[(g/16)%6], SS: c10SS[(g/96)%3]}
+			nd = c10Node{RO: g%2 == 0, Offline: (g/2)%2 == 1, Source: c10Sources[(g/4)%4], Threads: c10Threads[(g/16)%7], SS: c10SS[(g/112)%3]}
 		} else {
-			nd = c10Node{RO: r.Intn(2) == 0, Offline: r.Intn(4) == 0, Source: c10Sources[r.Intn(4)], Threads: c10Threads[r.Intn(6)], SS: c10SS[r.Intn(3)]}
+			nd = c10Node{RO: r.Intn(2) == 0, Offline: r.Intn(4) == 0, Source: c10Sources[r.Intn(4)], Threads: c10Threads[r.Intn(7)], SS: c10SS[r.Intn(3)]}
 		}
 		nd.Ahead = nd.Source == "none" && r.Intn(2) == 0
 		sp.Nodes = append(sp.Nodes, nd)
@@ -129,6 +129,13 @@ func c10Run(u *Unit) {
 				case "permanent":
 					x.IORun, x.SQLRun, x.LastIOErrno, x.StickyErr = true, true, 13114, true
 					permanent[x.Host] = true
+				case "permanent_src":
+					// a permanent error code that belongs to the current source (it purged the binary logs this replica needs):
+					// it comes back after every START while the replica points there, and is gone once it is pointed elsewhere
+					x.IORun, x.SQLRun, x.LastIOErrno, x.StickyErr, x.StickySource = true, true, 1236, true, x.Source
+					if x.Source == master {
+						permanent[x.Host] = true
+					}
 				}
 			}
 		}
@@ -213,6 +220,11 @@ func c10Run(u *Unit) {
 				bad = append(bad, h+" is not read-only")
 			}
 			exhausted := nd.Threads == "permanent" || x.StickyErr
+			if nd.Threads == "permanent_src" && (nd.Source == "other" || nd.Source == "decoy") && x.StickySource != master {
+				// no repair attempt is involved: the error belongs to the wrong source, re-pointing to the recorded master cures it
+				exhausted = false
+				sc.Cover("permanent-error-of-a-wrong-source")
+			}
 			if !exhausted && !(x.Source == master && x.IORun && x.SQLRun && x.LastIOErrno == 0 && x.LastSQLErrno == 0) {
 				if stale[h] && nd.Ahead {
 					// a stale master with own transactions waits for resetup: must at least be a marked, offline, read-only replica
@@ -272,7 +284,7 @@ func c10Run(u *Unit) {
 func init() {
 	register(&Prop{ID: "C10", Units: func(tier string) int { return tierN(tier, 576, 4608) }, Run: c10Run,
 		Floor: func(string) []string {
-			f := []string{"stale-master", "aggressive-reset"}
+			f := []string{"stale-master", "aggressive-reset", "permanent-error-of-a-wrong-source"}
 			for _, x := range c10Sources {
 				f = append(f, "source:"+x)
 			}
@@ -284,5 +296,5 @@ func init() {
 			}
 			return f
 		},
-		Rule: "unit = initial state of a 3-4 node cluster: the first non-master node walks the grid read-only x offline x source {none, master, another replica, an unregistered decoy} x threads {running, stopped, IO error, SQL error, permanent error} x semi-sync flag (288 cells, all in thorough x 4 configurations, a prefix in quick), the other nodes and the master's flags are seeded; optionally every k-th mutating statement fails; a decoy server exists in every run; bounded convergence is judged on ground truth after K iterations, safety clauses at every event; distinct by (configuration, master flags, grid cell, failure schedule)"})
+		Rule: "unit = initial state of a 3-4 node cluster: the first non-master node walks the grid read-only x offline x source {none, master, another replica, an unregistered decoy} x threads {running, stopped, IO error, SQL error, recurring error, permanent error code, permanent error code caused by the current source} x semi-sync flag (336 cells, all in thorough x 4 configurations, a prefix in quick), the other nodes and the master's flags are seeded; optionally every k-th mutating statement fails; a decoy server exists in every run; bounded convergence is judged on ground truth after K iterations, safety clauses at every event; distinct by (configuration, master flags, grid cell, failure schedule)"})
 }
